@@ -34,6 +34,7 @@ func TestMain(m *testing.M) {
 func TestVerif(t *testing.T) {
 	// The library logs through a process-wide logger; silence it (it is not a seam).
 	logger.Init("verif", false, false, io.Discard)
+	checks.BubbleTB = t
 	prop := os.Getenv("VERIF_PROP")
 	if prop == "selftest" {
 		exitCode = checks.SelfTest(t)
